@@ -7,8 +7,11 @@ Streams
             for-in) defined by one entry and called — with receivers of different classes — from any
             number of later entries; and erroneous entries: syntax errors, undeclared names,
             re-declarations, entries the compiler proper rejects after it numbered their sites,
-            runtime errors with a prefix that already ran, runtime errors inside earlier functions)
-            fed line by line to `Vm::repl` (harness binary `vh_repl`).
+            runtime errors with a prefix that already ran, runtime errors inside earlier functions);
+            classes declared without a parent in the entry that first mentions `Object`, in later
+            entries, inside functions, under a parameter called Object, with an explicit `: Object`,
+            and in sessions that declare their own `Object` (let or class; re-declaring it later is
+            rejected) — fed line by line to `Vm::repl` (harness binary `vh_repl`).
 Judgements (separately)
   implementation-vs-Spec   Spec = `vharness run` on the concatenation of the entries (failed entries
                            dropped, the executed prefix of a runtime-failing entry kept): same printed
@@ -54,6 +57,10 @@ class Gen:
         self.sclasses = []    # classes whose methods m(q) / n(q) contain inline-cache sites
         self.smakers = []     # functions returning a closure that contains an inline-cache site
         self.bias = 1         # weight of the statements that define / call sited functions
+        self.obj = None       # how the session's module knows `Object`: None | "global" (brought in by a class
+        #                       declaration or another use) | "num" / "class" (the session declared its own)
+        self.cmakers = []     # (function, argument text): functions whose body declares a parent-less class
+        self.obias = 1        # weight of the statements about `Object`
         self.counter = 0
         self.all_names = set()
 
@@ -102,8 +109,20 @@ class Gen:
             choices += ["sfn", "sclass", "smaker"] * self.bias
         if (self.sfns or self.sclasses or self.smakers) and (self.insts or self.lists):
             choices += ["scall", "scall", "scall", "scall2", "swrap", "sclos"] * self.bias
+        choices += ["fclass", "shadowclass"] * self.obias
+        if self.obj != "num":
+            choices += ["eclass"] * self.obias
+        if self.obj is None:
+            choices += ["userobj"] * self.obias
+        if self.obj in ("num", "class"):
+            choices += ["objuse"] * self.obias
+        if self.cmakers:
+            choices += ["cmcall", "cmcall"] * self.obias
         k = rng.choice(choices)
-        return getattr(self, "s_" + k)()
+        st = getattr(self, "s_" + k)()
+        if "Object" in st["refs"] and self.obj is None:
+            self.obj = "global"      # (if the entry is rejected, gen_session restores the snapshot)
+        return st
 
     def s_let(self):
         v = self.fresh("v")
@@ -166,7 +185,7 @@ class Gen:
             refs.append(w)
         self.classes.append((k, "m", nargs))
         return dict(text="class %s { m(%s) { return %s; } }" % (k, "p" if nargs else "", body), decls=[k], refs=["Object"] + refs,
-                    funs=[(k + ".m", self.ops_get(refs))], script=["s:" + k, "g:Object", "g:" + k], calls=[])
+                    funs=[(k + ".m", self.ops_get(refs))], script=["s:" + k, "o", "g:" + k], calls=[])
 
     def s_mcall(self):
         k, m, nargs = self.rng.choice(self.classes)
@@ -185,7 +204,7 @@ class Gen:
         return dict(text="class %s { init(x) { %s } get() { return self.x; } gety() { return self.y; } add(n) { return self.x + n; } }"
                     % (k, init), decls=[k], refs=["Object"],
                     funs=[(k + ".init", []), (k + ".get", []), (k + ".gety", []), (k + ".add", [])],
-                    script=["s:" + k, "g:Object", "g:" + k], calls=[])
+                    script=["s:" + k, "o", "g:" + k], calls=[])
 
     def s_inst(self):
         k = self.rng.choice(self.pclasses)
@@ -257,7 +276,7 @@ class Gen:
         k2, b2, s2, c2 = self.sited_body()
         self.sclasses.append((c, [("m", k1, c1), ("n", k2, c2)]))
         return dict(text="class %s { m(q) { %s } n(q) { %s } }" % (c, b1, b2), decls=[c], refs=["Object"],
-                    funs=[(c + ".m", s1), (c + ".n", s2)], script=["s:" + c, "g:Object", "g:" + c], calls=[])
+                    funs=[(c + ".m", s1), (c + ".n", s2)], script=["s:" + c, "o", "g:" + c], calls=[])
 
     def s_smaker(self):
         f = self.fresh("mk")
@@ -350,7 +369,7 @@ class Gen:
             c = self.fresh("N")
             self.makers.append((c, "method", w, k))
             return dict(text="class %s { m() { return |p| p * %d + %s; } }" % (c, k, w), decls=[c], refs=["Object", w],
-                        funs=[(c + ".m.l", ["g:" + w]), (c + ".m", [])], script=["s:" + c, "g:Object", "g:" + c], calls=[])
+                        funs=[(c + ".m.l", ["g:" + w]), (c + ".m", [])], script=["s:" + c, "o", "g:" + c], calls=[])
         f = self.fresh("mk")
         self.makers.append((f, shape, w, k))
         if shape == "fn2":
@@ -389,10 +408,60 @@ class Gen:
         return dict(text="for it in %s { print(it); }" % l, decls=[], refs=[l, "print"], funs=[],
                     script=["g:" + l, "i", "g:print"], calls=[])
 
+    # -- how a class declaration finds `Object` (D26 repair: `global_get`) --------------------------
+    def s_userobj(self):
+        """the session declares its own `Object`: every parent-less class, in this entry and later, loads
+        the builtin class from the global module instead of reading a module symbol"""
+        n = self.rng.randint(1, 9)
+        if self.rng.random() < 0.5:
+            self.obj = "num"
+            return dict(text="let Object = %d;" % n, decls=["Object"], refs=[], funs=[], script=["s:Object"], calls=[])
+        self.obj = "class"
+        return dict(text="class Object { hi() { return %d; } }" % n, decls=["Object"], refs=["Object"],
+                    funs=[("Object.hi", [])], script=["s:Object", "o", "g:Object"], calls=[])
+
+    def s_objuse(self):
+        if self.obj == "num":
+            return dict(text="print(Object + 1);", decls=[], refs=["print", "Object"], funs=[], script=["g:print", "g:Object"],
+                        calls=[], needs=["Object"])
+        return dict(text="print(Object().hi());", decls=[], refs=["print", "Object"], funs=[], script=["g:print", "g:Object", "i"],
+                    calls=["Object.hi"], needs=["Object"])
+
+    def s_eclass(self):
+        """an explicit `: Object` is an ordinary read of the name (the module's slot, in every entry)"""
+        k = self.fresh("E")
+        self.classes.append((k, "m", 0))
+        return dict(text="class %s : Object { m() { return %d; } }" % (k, self.rng.randint(1, 99)), decls=[k], refs=["Object"],
+                    funs=[(k + ".m", [])], script=["s:" + k, "g:Object", "g:" + k], calls=[])
+
+    def s_fclass(self):
+        """a parent-less class declared inside a function: the implicit superclass is read in the function's body"""
+        f = self.fresh("mc")
+        self.cmakers.append((f, ""))
+        return dict(text="fn %s() { class L { v() { return %d; } } return L; }" % (f, self.rng.randint(1, 99)), decls=[f],
+                    refs=["Object"], funs=[(f + ".L.v", []), (f, ["o"])], script=["s:" + f], calls=[])
+
+    def s_shadowclass(self):
+        """the same under a parameter called Object: the builtin class is loaded from the global module,
+        neither the resolver nor the compiler touches a module symbol"""
+        f = self.fresh("mc")
+        self.cmakers.append((f, "0"))
+        return dict(text="fn %s(Object) { class L { v() { return %d; } } return L; }" % (f, self.rng.randint(1, 99)), decls=[f],
+                    refs=[], funs=[(f + ".L.v", []), (f, [])], script=["s:" + f], calls=[])
+
+    def s_cmcall(self):
+        f, arg = self.rng.choice(self.cmakers)
+        return dict(text="print(%s(%s)().v());" % (f, arg), decls=[], refs=["print", f], funs=[], script=["g:print", "g:" + f, "i"],
+                    calls=[f, f + ".L.v"])
+
     # -- erroneous statements ---------------------------------------------------------------
     def bad(self):
         rng = self.rng
-        k = rng.choice(["syntax", "syntax2", "undeclared", "duplicate", "rt_prop", "rt_raise", "rt_let", "rt_call", "rt_scall", "late"])
+        k = rng.choice(["syntax", "syntax2", "undeclared", "duplicate", "rt_prop", "rt_raise", "rt_let", "rt_call", "rt_scall", "late",
+                        "dup_object"])
+        if k == "dup_object" and self.obj is not None:
+            # `Object` is a symbol of the module (as a global an earlier entry brought in, or the session's own)
+            return dict(text="let Object = 1;", fail="duplicate", decls=["Object"], refs=[], funs=[], script=["s:Object"], calls=[])
         if k == "rt_scall" and self.sfns:
             h = rng.choice(self.sfns)[0]     # the error is raised inside a sited function of an earlier entry
             return dict(text="print(%s(nil));" % h, fail="runtime", decls=[], refs=["print", h], funs=[],
@@ -429,7 +498,14 @@ def gen_session(rng):
     g = Gen(rng)
     n = rng.randint(3, 12)
     entries = []
-    if rng.random() < 0.6:
+    prof = rng.random()
+    if prof >= 0.85:
+        # profile "Object": how parent-less classes find their superclass — first mention, later entries,
+        # inside functions, under a local of that name, in a session that declares its own Object
+        g.obias = 5
+        if rng.random() < 0.5:
+            entries.append({"stmts": [g.s_userobj()] + ([g.stmt()] if rng.random() < 0.5 else [])})
+    if prof < 0.6:
         # profile "sited": receivers of several classes first, then mostly definitions and calls of
         # functions / methods / closures that contain inline-cache sites, spread over many entries
         g.bias = 4
@@ -439,6 +515,7 @@ def gen_session(rng):
             entries.append({"stmts": [g.s_inst()] + ([g.s_list()] if rng.random() < 0.3 else [])})
         n = rng.randint(4, 10)
     for _ in range(n):
+        note_object(g, entries)
         r = rng.random()
         if r < 0.22:
             b = g.bad()
@@ -456,16 +533,25 @@ def gen_session(rng):
                 entries.append({"stmts": [b]})
         else:
             entries.append({"stmts": [g.stmt() for _ in range(rng.choice([1, 1, 1, 2, 2, 3]))]})
+        note_object(g, entries)
     return entries
+
+
+def note_object(g, entries):
+    """an entry that reaches the prologue brings `Object` into the module if it mentions the name"""
+    for e in entries:
+        if g.obj is None and entry_fail(e) != "compile" and any("Object" in st["refs"] for st in e["stmts"]):
+            g.obj = "global"
 
 
 def snapshot(g):
     return (list(g.nums), list(g.fns), list(g.classes), list(g.pclasses), list(g.insts), list(g.lists),
-            list(g.sfns), list(g.sclasses), list(g.smakers), list(getattr(g, "makers", [])))
+            list(g.sfns), list(g.sclasses), list(g.smakers), list(getattr(g, "makers", [])), list(g.cmakers), [g.obj])
 
 
 def restore(g, s):
-    g.nums, g.fns, g.classes, g.pclasses, g.insts, g.lists, g.sfns, g.sclasses, g.smakers, g.makers = [list(x) for x in s]
+    (g.nums, g.fns, g.classes, g.pclasses, g.insts, g.lists, g.sfns, g.sclasses, g.smakers, g.makers, g.cmakers,
+     (g.obj,)) = [list(x) for x in s]
 
 
 # ---------------------------------------------------------------------------------------------
@@ -753,7 +839,8 @@ GLOBALS = {"print", "Object", "Error", "nope"}
 
 def well_scoped(entries):
     """every referenced name is declared by an earlier (or the same) compiled entry, nothing is declared twice"""
-    declared = set()
+    declared = set()      # the module's symbols: declared names and the globals brought in by a use
+    own = set()           # the names the session declared itself
     for e in entries:
         f = entry_fail(e)
         names = [d for s in e["stmts"] for d in s["decls"]]
@@ -767,8 +854,36 @@ def well_scoped(entries):
             return False
         if any(r not in declared and r not in names and r not in GLOBALS for r in refs):
             return False
-        declared |= set(names)
+        if any(n not in own and n not in names for s in e["stmts"] for n in s.get("needs", [])):
+            return False          # e.g. `Object + 1` needs the session's own Object, not the builtin class
+        declared |= set(names) | {r for r in refs if r in GLOBALS and r != "nope"}
+        own |= set(names)
     return True
+
+
+def object_stats(entries, stats):
+    """which of the ways a class declaration finds `Object` the session exercises (the model's `superSlot` cases)"""
+    in_module, own = False, False       # `Object` is a symbol of the module; the session declared it itself
+    for e in entries:
+        f = entry_fail(e)
+        decls = [d for st in e["stmts"] for d in st["decls"]]
+        if f == "compile":
+            stats["redeclaring_Object_rejected"] += any(st.get("fail") == "duplicate" and "Object" in st["decls"] for st in e["stmts"])
+            continue
+        declares = "Object" in decls
+        for st in e["stmts"]:
+            n = sum(1 for o in st["script"] if o == "o") + sum(1 for _, ops in st["funs"] for o in ops if o == "o")
+            key = ("implicit_super_own_Object_LoadGlobal" if declares or (in_module and own) else
+                   "implicit_super_later_entry_LoadGlobal" if in_module else "implicit_super_first_mention_GetModSym")
+            stats[key] += n
+            stats["implicit_super_inside_a_function"] += sum(1 for _, ops in st["funs"] for o in ops if o == "o")
+            stats["implicit_super_under_a_local_called_Object"] += "(Object) { class" in st["text"]
+            stats["explicit_Object_superclass"] += ": Object {" in st["text"]
+        if declares:
+            own = True
+            stats["sessions_declaring_their_own_Object"] += 1
+        if declares or any("Object" in st["refs"] for st in e["stmts"]):
+            in_module = True
 
 
 def payload(entries, rrec, crec, mlines, kind, msg, seed):
@@ -802,7 +917,11 @@ def stream_sessions(ctx, n, workdir, label="sessions", seed_mul=7919, search=Fal
              "runtime_error_entries": 0, "calls_into_earlier_entries": 0, "sites_top_level": 0, "functions_with_sites": 0,
              "calls_of_sited_functions_from_later_entries": 0, "sessions_calling_sited_functions_from_later_entries": 0,
              "sited_calls_after_a_failed_entry": 0, "max_entries_between_definition_and_call": 0,
-             "sessions_sites_in_3_or_more_entries": 0, "definitions": 0, "output_lines": 0}
+             "sessions_sites_in_3_or_more_entries": 0, "definitions": 0, "output_lines": 0,
+             "implicit_super_first_mention_GetModSym": 0, "implicit_super_later_entry_LoadGlobal": 0,
+             "implicit_super_own_Object_LoadGlobal": 0, "implicit_super_inside_a_function": 0,
+             "implicit_super_under_a_local_called_Object": 0, "explicit_Object_superclass": 0,
+             "sessions_declaring_their_own_Object": 0, "redeclaring_Object_rejected": 0}
     first = None
     CH = 300
     for off in range(0, len(sessions), CH):
@@ -842,6 +961,7 @@ def stream_sessions(ctx, n, workdir, label="sessions", seed_mul=7919, search=Fal
                                         stats["max_entries_between_definition_and_call"], i - defined_in[c])
                 entries_with_sites += has_site
                 failed_before = failed_before or f is not None
+            object_stats(s, stats)
             stats["calls_into_earlier_entries"] += later_calls
             stats["calls_of_sited_functions_from_later_entries"] += later_sited
             stats["sessions_calling_sited_functions_from_later_entries"] += later_sited > 0
@@ -908,7 +1028,10 @@ def run(ctx):
                        "directly, two per statement, and through later-defined wrapper functions (60% of the sessions are biased "
                        "towards these); ~22% erroneous entries (syntax error, undeclared name, re-declaration, rejected by the "
                        "compiler proper after its sites were numbered, runtime error after a prefix that ran, runtime error inside "
-                       "an earlier sited function, half-declared let).  non-trivial = some entry calls a function with an "
+                       "an earlier sited function, half-declared let, re-declaring Object).  Parent-less classes in the entry "
+                       "that first mentions Object (GetModSym of the new slot), in later entries and in sessions declaring "
+                       "their own Object (LoadGlobal), inside functions, under a parameter called Object, explicit `: Object` "
+                       "(15% of the sessions are biased towards these).  non-trivial = some entry calls a function with an "
                        "inline-cache site defined by an earlier entry and some entry fails; distinct by session text")
     try:
         n = ctx.n(3000, 30000)
